@@ -32,7 +32,7 @@ for p in props:
     if i in BUILT:
         lvl, text, tech, ref = T[i]
         checks.append(dict(property_id=i, quick_cmd=f'./run {i} quick', thorough_cmd=f'./run {i} thorough', evidence_file=f'/verif/evidence/{i}.json',
-            replay_cmd_template='./run replay {path}', engine='fxmc',
+            replay_cmd_template='./run replay {path}', engine='fxseam' if i == 'C17' else 'fxmc',
             level_claimed=dict(category=lvl, text=text, design_ref=ref),
             level_note='Bounds and alphabet per job are written into the evidence file (coverage.jobs, assumptions); harness shortcuts (handler on store branch, emulated block boundary) are validated by replaying traces through real FinalizeBlock+Commit where the evidence reports traces_validated_against_impl > 0.',
             technique=tech))
@@ -40,9 +40,10 @@ for p in props:
         na.append(dict(property_id=i, reason='check not built yet in this session (work in progress; the design in DESIGN.md §4 applies)'))
 base = json.load(open('/root/.vp/BASELINE.json'))['cmd']
 m = dict(version=1, setup_cmd='./run setup',
-    hooks=dict(guard='verif', enable='go build -tags verif (./build.sh); one add-only hook file x/crosschain/types/unpack_verif.go', baseline_off_cmd=base,
+    hooks=dict(guard='verif', enable='go build -tags verif (./build.sh); one add-only hook file x/crosschain/types/unpack_verif.go. The C17 seams (map iteration order, clock) are NOT in /repo: tools/build_seam.sh generates them as a go build -overlay from the current tree at check time', baseline_off_cmd=base,
                source_commits=json.load(open('/verif/tools/hook_commits.json')), add_only=True),
-    engines=[dict(name='fxmc', path='/verif/mc', serves_properties=BUILT, kind_free_text='hand-written explicit-state explorer / fault-point and input enumerators over the real fx-core application (store branches as states, real handlers as transitions)')],
+    engines=[dict(name='fxmc', path='/verif/mc', serves_properties=[b for b in BUILT if b != 'C17'], kind_free_text='hand-written explicit-state explorer / fault-point and input enumerators over the real fx-core application (store branches as states, real handlers as transitions)'),
+             dict(name='fxseam', path='/verif/mc/cmd/fxseam', serves_properties=[b for b in BUILT if b == 'C17'], kind_free_text='environment-answer enumerator: /verif/seamgen type-checks the current tree and generates a go build -overlay in which every map range and time.Now() of fx-core asks the explorer; histories run through real FinalizeBlock+Commit under every iteration order (deviation-bounded), two clocks, 16 OS processes')],
     checks=checks, not_applicable=na,
     notes='known_findings.json lists fixed/known defects; replays/ holds violation artefacts; seeded/ holds confirmed property-breaking changes.')
 json.dump(m, open('/verif/MANIFEST.json', 'w'), indent=1)
